@@ -71,8 +71,11 @@ class Ctx:
         self.assumptions = []
         self.explanation = ""
         self.extra = {}
+        self.alias = {}      # thorough tier: the rule module's "default" facts are replaced by another feature configuration
+        self.pass_tag = ""
 
     def facts(self, config="default"):
+        config = self.alias.get(config, config)
         if config not in self._facts:
             d, info = extract.facts_dir(config)
             self._facts[config] = mir.Facts(d, extract.CONFIGS[config][3])
@@ -80,6 +83,8 @@ class Ctx:
         return self._facts[config]
 
     def rule(self, rid, desc, floor=0):
+        if self.pass_tag:
+            desc = "%s [config %s]" % (desc, self.pass_tag)
         r = Rule(self, rid, desc, floor)
         self.rules.append(r)
         return r
@@ -114,6 +119,13 @@ def main(argv):
     ctx = Ctx(pid, tier)
     try:
         mod.check(ctx)
+        if tier == "thorough":
+            # same rules over the MIR of the other feature configurations (different cfg => different code is compiled in)
+            for cfg in getattr(mod, "THOROUGH_CONFIGS", ("full", "unstable")):
+                ctx.alias = {"default": cfg}
+                ctx.pass_tag = cfg
+                mod.check(ctx)
+            ctx.alias, ctx.pass_tag = {}, ""
     except extract.ToolFailure as ex:
         print("TOOL-FAILURE (tree does not compile or extraction failed): %s" % ex)
         return 2
@@ -181,7 +193,11 @@ def main(argv):
         pid, tier, len(ctx.rules), obligations, discharged, len(knowns), len(violations), time.time() - t0))
     for r in ctx.rules:
         print("  %s.%s %-70s %d/%d" % (pid, r.id, r.desc[:70], sum(1 for i in r.instances if i["ok"]), len(r.instances)))
+    printed = set()
     for r, i in knowns:
+        if i["key"] in printed:
+            continue  # thorough tier: the same finding seen again under another feature configuration
+        printed.add(i["key"])
         print("KNOWN-FINDING: property=%s %s — %s" % (pid, i["key"], known_keys[i["key"]].get("what", i["detail"][:200])))
     if violations:
         rdir = os.path.join(EVID, "replay")
